@@ -295,6 +295,26 @@ fn run_planned(prop: &'static str, args: &Args, ev: &mut Ev, planned: Vec<Planne
         return viol;
     }
     let full = args.tier == Tier::Thorough;
+    if prop == "C01" {
+        // "it instantiates against the same imports with the same outcome": an input that
+        // validates (and so compiles) whose re-emitted binary does not validate cannot even be
+        // compiled. C02 reports the same fact as a validity violation; for C01 it is a difference
+        // in the outcome of instantiation
+        let (bad, _) = pmap(&planned, args.threads, None, |p| -> Option<String> {
+            if p.case.family == "body-batch" || wmodel::validate214(&p.case.wasm, wmodel::FeatureSet::DEFAULT).is_err() {
+                return None;
+            }
+            let out = roundtrip(&p.case.wasm, &Cfg::default(), do_gc).ok()?;
+            wmodel::validate214(&out, wmodel::FeatureSet::DEFAULT).err()
+        });
+        for (p, b) in planned.iter().zip(bad.into_iter()) {
+            if let Some(Some(e)) = b {
+                let mut c = p.case.clone();
+                c.cfg = json!({"output_invalid": true, "gc": do_gc});
+                viol.push(Violation::new(prop, format!("behaviour-differs:output-cannot-be-instantiated:{}", crate::props::validity::norm_verr(&e)), format!("the input validates, the re-emitted binary does not: {}", e), &c));
+            }
+        }
+    }
     let (jobs_opt, _) = pmap(&planned, args.threads, None, |p| job_for(p, do_gc, full, 0));
     let mut jobs = vec![];
     let mut owner = vec![];
@@ -395,6 +415,14 @@ pub fn recheck(prop: &'static str, c: &Case) -> Vec<Violation> {
         budget_s: 60.0,
     };
     let do_gc = c.cfg.get("gc").and_then(|x| x.as_bool()).unwrap_or(false);
+    if c.cfg.get("output_invalid").is_some() {
+        if let Ok(out) = roundtrip(&c.wasm, &Cfg::default(), do_gc) {
+            if let Err(e) = wmodel::validate214(&out, wmodel::FeatureSet::DEFAULT) {
+                return vec![Violation::new(prop, format!("behaviour-differs:output-cannot-be-instantiated:{}", crate::props::validity::norm_verr(&e)), e, c)];
+            }
+        }
+        return vec![];
+    }
     let mode = if c.cfg.get("mode").and_then(|x| x.as_str()) == Some("bfs") { "bfs" } else { "batch" };
     let depth = c.cfg.get("depth").and_then(|x| x.as_u64()).unwrap_or(2) as usize;
     let p = Planned { case: c.clone(), mode, depth };
